@@ -129,19 +129,29 @@ fn strip_term(term: Term, options: &Options) -> Term {
             Term::Tuple(tuple)
         }
         Term::Block(expression) => Term::Block(strip_expression(expression, options)),
-        Term::String(style, segments, span) => Term::String(
-            style,
-            segments
-                .into_iter()
-                .map(|segment| match segment {
-                    StrSegment::Hole(expression) => {
-                        StrSegment::Hole(strip_expression(expression, options))
-                    }
-                    text => text,
-                })
-                .collect(),
-            span,
-        ),
+        Term::String(style, segments, span) => {
+            // Nothing inside a literal carries comments or blank lines (none are collected there),
+            // and the spans inside a multi-line string's holes are relative to the string, not the
+            // file: asking `keep` about them would answer for some other node of the file.
+            let inside = Options {
+                keep: &|_| false,
+                lift: options.lift,
+                group_consequences: options.group_consequences,
+            };
+            Term::String(
+                style,
+                segments
+                    .into_iter()
+                    .map(|segment| match segment {
+                        StrSegment::Hole(expression) => {
+                            StrSegment::Hole(strip_expression(expression, &inside))
+                        }
+                        text => text,
+                    })
+                    .collect(),
+                span,
+            )
+        }
         Term::Function(mut function) => {
             function.body = function.body.map(|body| strip_expression(body, options));
             Term::Function(function)
